@@ -13,20 +13,32 @@
    Status.
    * good_mg_cell_nr: full (exact characterisation, sortedness, ValueError).
    * _stretch: full (stretch_post, stretch_extent).
-   * origin_and_widths: oaw_post is the full list of postconditions for every
-     input whose CENTRE PART is well formed (positive widths whose sum is the
-     distance between the centre edges).  That hypothesis is discharged for
-     the three configurations without a sea surface (centre at a node, centre at
-     a cell centre, user vector) by center_at_... ; with a sea surface it is NOT
-     proved (it needs brentq's answer to be positive; the adjusted widths are
-     tdmin*alph^k) -- hence the suffix _partial on the theorems that depend on
-     it.  Floating-point accumulation (cumsum, **, np.sum), np.isclose and
-     brentq are not proved.
+   * origin_and_widths: FULL over exact arithmetic.  [oaw_post] gives, for every
+     input satisfying [input_ok] (positive skin depth of properties[0], positive
+     points-per-skin-depth, positive upper width limit, strictly increasing
+     node vector, positive stretching factors) and every brentq obeying its
+     bracket contract (answer in [0.5, 10], the interval the code hands to
+     scipy): permitted cell count, positive widths, coverage of the survey
+     domain (widened to the sea surface) and of the computational domain, the
+     exact growth factors outside the centre part, and "every node of the centre
+     part is a mesh node".  The remaining clauses of C16 are the theorems
+     oaw_sea_surface_node_or_warning, oaw_vector_nodes_are_mesh_nodes +
+     vector_cut_keeps_domain_nodes, oaw_centre_on_node,
+     oaw_centre_on_cell_centre, sea_surface_cells_* (the 1.25 / 1.1 allowance),
+     comp_domain_* (what the buffer is), oaw_none_means_error.
+     NOT in the model, hence not proved: IEEE rounding (cumsum, **, np.sum are
+     exact sums and powers here), np.isclose (modelled by its formula),
+     TensorMesh construction.  brentq is an oracle: only its bracket is assumed
+     (sea_surface_node_accuracy additionally assumes the root tolerance and then
+     bounds the distance of the node from the sea surface).  In the no-vector
+     sea-surface branch the squeezed centre width fact*dmin is only shown to be
+     positive (not that fact lies in [0.7, 1.3] and the limits).
    * error behaviour: full (oaw_none_means_error, oaw_error_means_none,
      construct_mesh_fails_loudly).
    * routing: full for the documented forms (route_ lemmas). *)
 From Coq Require Import Reals ZArith Bool List Arith QArith Sorted.
-From V Require Import Base.FieldSig Base.ExecQ Model.Gridding Model.GriddingExec Proofs.Gridding.
+From V Require Import Base.FieldSig Base.ExecQ Model.Gridding Model.GriddingExec Proofs.Gridding
+  Proofs.GriddingSea.
 Import ListNotations.
 Local Open Scope R_scope.
 
@@ -107,45 +119,143 @@ Section C16.
   Variable argsort13 : list R -> list nat.       (* np.argsort on tied keys *)
   Variable twopi : R.
   Variable skin : R -> R.
+  (* contract of the oracle: scipy returns a point of the bracket it was given *)
+  Hypothesis brentq_bracket : forall t d n, 1 / 2 <= brentq t d n <= 10.
   Notation oaw := (origin_and_widths gleb floorZ brentq argsort13 twopi).
   Notation cpart := (center_part gleb floorZ brentq argsort13).
 
-  (* FULL STATEMENT: the same without the hypothesis [center_ok].  Proved:
-     whenever origin_and_widths returns (x0, hx) and the centre part handed to
-     the search is well formed,
-       - len(hx) is one of cell_numbers,
-       - all widths are positive,
-       - [x0, x0 + sum hx] contains the survey domain (widened by the sea
-         surface) and the computational domain,
-       - hx = rev l2 ++ rev l1 ++ centre ++ r1 ++ r2 where l1, r1 grow away from
-         the centre by exactly sa and l2, r2 by exactly ca, with sa between 1
-         and stretching[0] and ca between sa and stretching[1],
-       - x0 + sum(rev l2 ++ rev l1) is the left edge of the centre part.
-     Missing: center_ok when a sea surface is given (brentq's answer positive). *)
-  Theorem oaw_post_partial i ws x0 hx nx sa ca n :
+  (* THE postcondition of origin_and_widths.  Whenever it returns (x0, hx):
+       - len(hx) is one of cell_numbers;  all widths are positive;
+       - [x0, x0 + sum hx] contains the survey domain (widened to the sea
+         surface: sea_dom) and the computational domain (comp_domain_* below:
+         domain +- min(lambda_factor*lambda, max_buffer), resp. the
+         lambda_from_center formula);
+       - hx = rev l2 ++ rev l1 ++ centre ++ r1 ++ r2, where l1 / r1 grow away from
+         the centre part by exactly sa per cell and l2 / r2 by exactly ca, the
+         first new cell being the adjacent one times the factor, with
+         sa between 1 and stretching[0], ca between sa and stretching[1];
+       - the centre part is well formed and each of its nodes is a mesh node
+         (x0 + sum of a prefix of hx). *)
+  Theorem oaw_post i ws x0 hx nx sa ca n :
+    input_ok i ->
     oaw i = mkOawOut ws (ROk x0 hx nx sa ca n) ->
-    0 < fst (i_stretching i) -> 0 < snd (i_stretching i) ->
     exists dom0,
       domain_of gleb i = Some dom0 /\
       let dom := sea_dom i dom0 in
       let cdom := comp_domain gleb twopi i dom in
       let ce := fst (snd (cpart i dom0)) in
       let cw := snd (snd (cpart i dom0)) in
-      (center_ok ce cw ->
-       In (Z.of_nat (length hx)) (i_cell_numbers i) /\ Z.of_nat (length hx) = nx /\
-       Forall posR hx /\
-       x0 <= fst dom /\ snd dom <= x0 + lsum hx /\
-       x0 <= fst cdom /\ snd cdom <= x0 + lsum hx /\
-       Rmin 1 (fst (i_stretching i)) <= sa <= Rmax 1 (fst (i_stretching i)) /\
-       Rmin sa (snd (i_stretching i)) <= ca <= Rmax sa (snd (i_stretching i)) /\
-       exists l1 r1 l2 r2,
-         hx = rev l2 ++ (rev l1 ++ cw ++ r1) ++ r2 /\
-         geo_chain sa (hd0 cw) l1 /\ geo_chain sa (last0 cw) r1 /\
-         geo_chain ca (hd0 (rev l1 ++ cw ++ r1)) l2 /\
-         geo_chain ca (last0 (rev l1 ++ cw ++ r1)) r2 /\
-         n = length (rev l1 ++ cw ++ r1) /\
-         x0 + lsum (rev l2 ++ rev l1) = fst ce).
-  Proof. exact (oaw_post floorZ brentq argsort13 twopi i ws x0 hx nx sa ca n). Qed.
+      center_ok ce cw /\
+      In (Z.of_nat (length hx)) (i_cell_numbers i) /\ Z.of_nat (length hx) = nx /\
+      Forall posR hx /\
+      x0 <= fst dom /\ snd dom <= x0 + lsum hx /\
+      x0 <= fst cdom /\ snd cdom <= x0 + lsum hx /\
+      Rmin 1 (fst (i_stretching i)) <= sa <= Rmax 1 (fst (i_stretching i)) /\
+      Rmin sa (snd (i_stretching i)) <= ca <= Rmax sa (snd (i_stretching i)) /\
+      exists l1 r1 l2 r2,
+        hx = rev l2 ++ (rev l1 ++ cw ++ r1) ++ r2 /\
+        geo_chain sa (hd0 cw) l1 /\ geo_chain sa (last0 cw) r1 /\
+        geo_chain ca (hd0 (rev l1 ++ cw ++ r1)) l2 /\
+        geo_chain ca (last0 (rev l1 ++ cw ++ r1)) r2 /\
+        n = length (rev l1 ++ cw ++ r1) /\
+        x0 + lsum (rev l2 ++ rev l1) = fst ce /\
+        (forall v, In v (nodes_of (fst ce) cw) -> mesh_node x0 hx v).
+  Proof. exact (oaw_post_full floorZ brentq argsort13 twopi brentq_bracket i ws x0 hx nx sa ca n). Qed.
+
+  (* the sea surface is (np.isclose) a node of the returned mesh, or the
+     'not at an actual boundary' warning was raised *)
+  Theorem oaw_sea_surface_node_or_warning i ws x0 hx nx sa ca n sea :
+    input_ok i ->
+    oaw i = mkOawOut ws (ROk x0 hx nx sa ca n) ->
+    i_sea i = Some sea -> ~ In WSea ws ->
+    exists v, mesh_node x0 hx v /\ isclose0 gleb (Rabs (v - sea)) = true.
+  Proof. exact (oaw_sea_node_or_warning floorZ brentq argsort13 twopi brentq_bracket i ws x0 hx nx sa ca n sea). Qed.
+
+  (* every node of the vector the centre part is built from -- the cut user
+     vector, or [c-dmin, c, c+dmin] -- is a node of the mesh (with and without
+     sea surface) *)
+  Theorem oaw_vector_nodes_are_mesh_nodes i ws x0 hx nx sa ca n dom0 v k :
+    input_ok i ->
+    oaw i = mkOawOut ws (ROk x0 hx nx sa ca n) ->
+    domain_of gleb i = Some dom0 ->
+    pre_vec i dom0 = Some v -> StronglySorted Rlt v -> (2 <= length v)%nat ->
+    (k < length v)%nat -> mesh_node x0 hx (nth k v 0).
+  Proof. exact (oaw_vector_nodes floorZ brentq argsort13 twopi brentq_bracket i ws x0 hx nx sa ca n dom0 v k). Qed.
+
+  (* ... and the cut loses no node of the user vector that lies in the survey domain *)
+  Theorem vector_cut_keeps_domain_nodes v dom v' x :
+    StronglySorted Rlt v -> vector_cut gleb v dom = Some v' ->
+    In x v -> fst dom <= x <= snd dom -> In x v'.
+  Proof. exact (vector_cut_keeps v dom v' x). Qed.
+
+  (* centre on a node (center_on_edge True / unset, no usable user vector) -- also
+     with a sea surface *)
+  Theorem oaw_centre_on_node i ws x0 hx nx sa ca n dom0 :
+    input_ok i ->
+    oaw i = mkOawOut ws (ROk x0 hx nx sa ca n) ->
+    domain_of gleb i = Some dom0 ->
+    match i_vector i with Some v => vector_cut gleb v dom0 | None => None end = None ->
+    i_center_on_edge i <> Some false ->
+    mesh_node x0 hx (i_center i).
+  Proof. exact (oaw_centre_is_node floorZ brentq argsort13 twopi brentq_bracket i ws x0 hx nx sa ca n dom0). Qed.
+
+  (* centre at a cell centre (center_on_edge False, no usable user vector), unless
+     the sea surface overrides it: then the sea surface is within half a centre
+     cell of the centre cell's upper edge and is exactly a mesh node *)
+  Theorem oaw_centre_on_cell_centre i ws x0 hx nx sa ca n dom0 :
+    input_ok i ->
+    oaw i = mkOawOut ws (ROk x0 hx nx sa ca n) ->
+    domain_of gleb i = Some dom0 ->
+    match i_vector i with Some v => vector_cut gleb v dom0 | None => None end = None ->
+    i_center_on_edge i = Some false ->
+    (exists p w q, hx = p ++ w :: q /\ x0 + lsum p + w / 2 = i_center i) \/
+    (exists sea, i_sea i = Some sea /\ mesh_node x0 hx sea /\
+       Rabs (sea - (i_center i + cell_width gleb (sd_at i 0) (i_pps i) (i_limits i) / 2))
+       <= cell_width gleb (sd_at i 0) (i_pps i) (i_limits i) / 2).
+  Proof. exact (oaw_centre_is_cell_centre floorZ brentq argsort13 twopi brentq_bracket i ws x0 hx nx sa ca n dom0). Qed.
+
+  (* the centre part handed to the search is always well formed (this is what
+     the first version of oaw_post assumed) *)
+  Theorem centre_part_well_formed i dom :
+    input_ok i -> center_ok (fst (snd (cpart i dom))) (snd (snd (cpart i dom))).
+  Proof. exact (center_part_ok floorZ brentq argsort13 brentq_bracket i dom). Qed.
+
+  (* the sea-surface allowance, centre part from a vector: the vector's widths are
+     untouched and the sea-surface cells grow by alph < min(1.25*stretching[0],
+     stretching[1]) (sea_allow true) *)
+  Theorem sea_surface_cells_after_vector i dom v :
+    pre_vec i dom = Some v -> v <> [] -> (2 <= length v)%nat -> StronglySorted Rlt v ->
+    exists hx,
+      snd (snd (cpart i dom)) = diffs v ++ hx /\ fst (fst (snd (cpart i dom))) = hd0 v /\
+      (hx = [] \/ exists alph, geo_chain alph (last0 (diffs v)) hx /\ 1 / 2 <= alph
+                               /\ alph < sea_allow true (fst (i_stretching i)) (snd (i_stretching i))).
+  Proof. exact (cpart_vector_shape floorZ brentq argsort13 brentq_bracket i dom v). Qed.
+
+  (* ... no vector: the centre cell is moved to the sea surface, or it is followed
+     by sea-surface cells growing by alph < min(1.1*stretching[0], stretching[1]) *)
+  Theorem sea_surface_cells_after_centre_cell i dom :
+    pre_vec i dom = None -> input_ok i ->
+    let ce := fst (snd (cpart i dom)) in
+    let cw := snd (snd (cpart i dom)) in
+    let d := cell_width gleb (sd_at i 0) (i_pps i) (i_limits i) in
+    (exists sea, i_sea i = Some sea /\ cw = [d] /\ snd ce = sea /\
+                 Rabs (sea - (i_center i + d / 2)) <= d / 2) \/
+    (exists w hx, cw = w :: hx /\ fst ce = i_center i - w / 2 /\ 0 < w /\
+       (hx = [] \/ exists alph, geo_chain alph w hx /\ 1 / 2 <= alph
+                                /\ alph < sea_allow false (fst (i_stretching i)) (snd (i_stretching i)))).
+  Proof. exact (cpart_cell_shape floorZ brentq argsort13 brentq_bracket i dom). Qed.
+
+  (* with the root contract of brentq (|f(alph)| <= tol): the last node of the
+     adjusted centre part is within tol of the sea surface *)
+  Theorem sea_surface_node_accuracy tol edges widths center sea s0 s1 hv fact e' w' :
+    (forall t d n,
+       Rabs (lsum (map (fun s => t * s)%F (pows (brentq t d n) (Z.to_nat n))) - d) <= tol) ->
+    center_ok edges widths -> 0 < fact ->
+    sea_try gleb floorZ brentq edges widths center sea s0 s1 hv fact = Some (e', w') ->
+    In (snd e') (nodes_of (fst e') w') /\ Rabs (snd e' - sea) <= tol.
+  Proof.
+    exact (fun Hr => sea_try_node floorZ brentq tol brentq_bracket Hr edges widths center sea s0 s1 hv fact e' w').
+  Qed.
 
   (* the computational domain is the survey domain +- min(lambda_factor*lambda, max_buffer) *)
   Theorem comp_domain_is_domain_plus_buffer i dom :
@@ -202,7 +312,7 @@ Section C16.
 
   (* a user vector: the cut keeps a contiguous piece with >= 3 nodes, its widths
      form a well-formed centre part, and node k of the cut vector is the mesh
-     node after the first k centre widths (with oaw_post_partial: x0 + sum of
+     node after the first k centre widths (with oaw_post: x0 + sum of
      the prefix rev l2 ++ rev l1 ++ firstn k (diffs v') of hx) *)
   Theorem center_from_vector i dom v v' :
     StronglySorted Rlt v ->
@@ -279,7 +389,16 @@ Section C16.
     exists d, cm_res (cmesh c) = CErrRuntime \/ cm_res (cmesh c) = CErrValue d.
   Proof. exact (Proofs.Gridding.construct_mesh_fails_loudly floorZ brentq argsort13 twopi skin c ix iy iz). Qed.
 End C16.
-Print Assumptions oaw_post_partial.
+Print Assumptions oaw_post.
+Print Assumptions oaw_sea_surface_node_or_warning.
+Print Assumptions oaw_vector_nodes_are_mesh_nodes.
+Print Assumptions vector_cut_keeps_domain_nodes.
+Print Assumptions oaw_centre_on_node.
+Print Assumptions oaw_centre_on_cell_centre.
+Print Assumptions centre_part_well_formed.
+Print Assumptions sea_surface_cells_after_vector.
+Print Assumptions sea_surface_cells_after_centre_cell.
+Print Assumptions sea_surface_node_accuracy.
 Print Assumptions comp_domain_is_domain_plus_buffer.
 Print Assumptions comp_domain_lambda_from_center.
 Print Assumptions domain_contains_seasurface.
